@@ -36,6 +36,10 @@ package scheduler
 //@   loop 3 invariant forall k signature.PublicKey :: inDom(newValidators, k) ==> newValidators[k] != nil && newValidators[k].VotingPower >= 1
 //@   loop 4 invariant newValidators != nil && (mapLen(newValidators) == 0 || mapLen(newValidators) < schedulerParameters.MaxValidators)
 //@   loop 4 invariant forall k signature.PublicKey :: inDom(newValidators, k) ==> newValidators[k] != nil && newValidators[k].VotingPower >= 1
+//@   loop 3 invariant validatorEntities != nil && (forall a staking.Address :: inDom(validatorEntities, a) ==> inDom(rewardableEntities, a))
+//@   loop 4 invariant validatorEntities != nil && (forall a staking.Address :: inDom(validatorEntities, a) ==> inDom(rewardableEntities, a))
+//@   ensures-local err == nil ==> sameRef(result0, validatorEntities) && (forall a staking.Address :: inDom(result0, a) ==> inDom(rewardableEntities, a))
+//@   note the entities reported as being in the validator set (what the committee election checks a runtime's ValidatorSet constraint against) are the ones that got a validator ELECTED in this run - each is recorded in the same step as its validator and as its reward eligibility - not every entity that merely had a candidate node (seed C14_g returned all candidates: an entity cut off by MaxValidators passed the constraint)
 //@   note configured limits: a non-empty set of at least MinValidators and at most MaxValidators validators is stored as the pending set, each with voting power >= 1 (a power-0 update would mean removal to CometBFT)
 
 //@ func updateValidators
